@@ -20,7 +20,12 @@ func mkCase(proto string, limit, pre int, thr []thrSpec, sched []int) string {
 	for _, t := range thr {
 		fmt.Fprintf(&sb, " %d %d", t.inst, len(t.ops))
 		for _, o := range t.ops {
-			sb.WriteString(" " + string(o))
+			// A..E = a revocation whose storage call 0..4 fails
+			if o >= 'A' && o <= 'E' {
+				sb.WriteString(fmt.Sprintf(" v%d", o-'A'))
+			} else {
+				sb.WriteString(" " + string(o))
+			}
 		}
 	}
 	fmt.Fprintf(&sb, " sch %d", len(sched))
@@ -527,6 +532,58 @@ func genQuotaShapes(r *common.Rand, tier string, emit func(string)) {
 	emit(mkFreeIt("mapq", 50, 49, 6, 20))
 }
 
+// A6: revocation through the service racing a request at the quota, with a storage fault on any one of
+// the revocation's calls.  The code being revoked must stay counted until it can no longer be activated.
+func genRevoke(tier string, emit func(string)) {
+	const rsteps = 6 // arrival + claim, read, Set, Set, release claim
+	for _, limit := range []int{1, 2} {
+		pre := limit - 1
+		csteps := admitSteps("code", limit)
+		for _, v := range []byte{'v', 'A', 'B', 'C', 'D', 'E'} {
+			thr := []thrSpec{{0, "a" + string(v)}, {0, "a"}}
+			var head []int
+			for i := 0; i < admitSteps("code", pre); i++ {
+				head = append(head, 0)
+			}
+			cnt := 0
+			// the racing request runs in at most two blocks, placed anywhere among the revocation's steps
+			for i := 0; i <= rsteps; i++ {
+				for j := i; j <= rsteps; j++ {
+					for cut := 0; cut <= csteps; cut++ {
+						if i == j && cut != 0 {
+							continue
+						}
+						cnt++
+						if tier == "quick" && cnt%3 != 1 {
+							continue
+						}
+						sched := append([]int(nil), head...)
+						for p := 0; p <= rsteps; p++ {
+							if p == i {
+								for x := 0; x < csteps-cut; x++ {
+									sched = append(sched, 1)
+								}
+							}
+							if p == j {
+								for x := 0; x < cut; x++ {
+									sched = append(sched, 1)
+								}
+							}
+							if p < rsteps {
+								sched = append(sched, 0)
+							}
+						}
+						for x := 0; x < csteps; x++ {
+							sched = append(sched, 1, 0)
+						}
+						emit(mkCase("code", limit, pre, thr, sched))
+					}
+				}
+			}
+		}
+	}
+}
+
 // A': random interleavings of N racing admissions at the boundary (scopes too large to enumerate).
 func genRandomInterleavings(r *common.Rand, count int, emit func(string)) {
 	for i := 0; i < count; i++ {
@@ -612,6 +669,8 @@ func genRandom(r *common.Rand, count int, emit func(string)) {
 					ops += "r"
 				case (proto == "code" || proto == "mapq") && r.Intn(6) == 0:
 					ops += "o"
+				case proto == "code" && j > 0 && r.Intn(3) == 0:
+					ops += string("vvABCDE"[r.Intn(7)])
 				default:
 					ops += "a"
 				}
@@ -672,6 +731,7 @@ func generate(r *common.Rand, tier string, emit func(string)) {
 	genCtrlX(tier, emit)
 	genSlot(r, tier, emit)
 	genQuotaShapes(r, tier, emit)
+	genRevoke(tier, emit)
 	genMultiNode(emit)
 	genStress(tier, emit)
 	if tier == "thorough" {
